@@ -359,6 +359,31 @@ fn order(e: &Expr, right_first: bool, out: &mut Vec<String>) {
     }
 }
 
+/// The tree with its `i`-th and `j`-th fact leaves (in written order) replaced by the texts `a`, `b`.
+fn substitute_leaves(e: &Expr, n: &mut usize, i: usize, a: &str, j: usize, b: &str) -> Expr {
+    match e {
+        Expr::Leaf(p, si) => {
+            let k = *n;
+            *n += 1;
+            if k == i {
+                Expr::Leaf(a.to_string(), si.clone())
+            } else if k == j {
+                Expr::Leaf(b.to_string(), si.clone())
+            } else {
+                Expr::Leaf(p.clone(), si.clone())
+            }
+        }
+        Expr::Paren(x) => paren(substitute_leaves(x, n, i, a, j, b)),
+        Expr::To(x, u) => crate::refcalc::to(substitute_leaves(x, n, i, a, j, b), u),
+        Expr::Bin(x, op, y) => {
+            let l = substitute_leaves(x, n, i, a, j, b);
+            let r = substitute_leaves(y, n, i, a, j, b);
+            bin(l, *op, r)
+        }
+        other => other.clone(),
+    }
+}
+
 impl Prop for C18 {
     fn id(&self) -> &'static str {
         "C18"
@@ -663,9 +688,9 @@ impl Prop for C18 {
             if on.results.len() != parts.len() {
                 return fw::fail("multi-results", format!("{q}: {} results for {} expressions", on.results.len(), parts.len()));
             }
-            // order discipline inside one expression, as shown by the tool on a two-phrase product
-            let probe = format!("{} * {}", PHRASES[0], PHRASES[1]);
-            let right_first = obs::eval_described(env.db(), &probe, true).map(|d| d.descriptions.first().map(|x| x.0 == PHRASES[1]).unwrap_or(true)).unwrap_or(true);
+            // results are evaluated one after the other, so the descriptions of one result form a block
+            // and the blocks follow the results; the order inside a block is the expression family's
+            // business (it observes the evaluation order of operands directly)
             let got: Vec<String> = on.descriptions.iter().map(|d| d.0.clone()).collect();
             let mut pos = 0usize;
             for (i, (text, phrases, err)) in parts.iter().enumerate() {
@@ -675,10 +700,10 @@ impl Prop for C18 {
                     (Res::Ok { .. }, false) => {
                         // every phrase of a result that was computed is reported, in the tool's own discipline
                         let mut want: Vec<String> = phrases.iter().map(|p| p.to_string()).collect();
-                        if right_first {
-                            want.reverse();
-                        }
-                        if got.len() < pos + want.len() || got[pos..pos + want.len()] != want[..] {
+                        want.sort();
+                        let mut block: Vec<String> = got.iter().skip(pos).take(want.len()).cloned().collect();
+                        block.sort();
+                        if block != want {
                             return fw::fail(
                                 "multi-description-missing",
                                 format!("{q}: result #{i} `{text}` was computed from {want:?}, but the descriptions are {got:?} (expected them at position {pos})"),
@@ -794,18 +819,39 @@ impl Prop for C18 {
                 return fw::fail("description-constant", format!("{q}: phrase {p:?} is described by {:?} whose value is not the one that entered the computation", c.tokens));
             }
         }
-        // order discipline: inferred from the two-phrase expression `p0 + p1`
+        // "in evaluation order": which of two operands is evaluated first is observable without
+        // descriptions - make both fail (two different divisions by zero in their places) and see
+        // whose error is reported. No discipline (left first, right first, per operator) is assumed.
         if nphrases >= 2 {
-            let probe = format!("{} * {}", PHRASES[0], PHRASES[1]);
-            let d = obs::eval_described(env.db(), &probe, true).unwrap();
-            let right_first = d.descriptions.first().map(|x| x.0 == PHRASES[1]).unwrap_or(true);
-            let mut exp = Vec::new();
-            order(&tree, right_first, &mut exp);
-            if exp != got_phrases {
-                return fw::fail(
-                    "description-order",
-                    format!("{q}: described in the order {got_phrases:?}; the discipline shown on `{probe}` ({}) gives {exp:?}", if right_first { "right operand first" } else { "left operand first" }),
-                );
+            let mut leaves = Vec::new();
+            order(&tree, false, &mut leaves);
+            for i in 0..leaves.len() {
+                for j in (i + 1)..leaves.len() {
+                    let unique = |p: &String| leaves.iter().filter(|x| *x == p).count() == 1;
+                    if !unique(&leaves[i]) || !unique(&leaves[j]) {
+                        continue;
+                    }
+                    let (fi, fj) = ("(1 / 0)", "(2 / 0)");
+                    let text = substitute_leaves(&tree, &mut 0, i, fi, j, fj).render();
+                    let (ai, aj) = match (text.find(fi), text.find(fj)) {
+                        (Some(a), Some(b)) => (a, b),
+                        _ => continue,
+                    };
+                    let first = match obs::eval_one(env.db(), &text) {
+                        Ok(Res::Err { start, end, .. }) if start >= ai && end <= ai + fi.len() => i,
+                        Ok(Res::Err { start, end, .. }) if start >= aj && end <= aj + fj.len() => j,
+                        _ => continue, // the error does not point at one of the two operands: undecided
+                    };
+                    let pos = |k: usize| got_phrases.iter().position(|p| *p == leaves[k]);
+                    if let (Some(pi), Some(pj)) = (pos(i), pos(j)) {
+                        if (first == i) != (pi < pj) {
+                            return fw::fail(
+                                "description-order",
+                                format!("{q}: described in the order {got_phrases:?}, but of {:?} and {:?} the tool evaluates {:?} first (`{text}` reports that operand's error)", leaves[i], leaves[j], leaves[first]),
+                            );
+                        }
+                    }
+                }
             }
         }
         fw::pass(nphrases > 0, fw::hash_str(&format!("{:?}", got_phrases)))
